@@ -23,6 +23,7 @@ enum Op {
     UpdateEdge(u64),
     Batch(Vec<(u64, u64, bool)>),
     Rejected,
+    Reopen,
 }
 #[derive(Clone, Debug, PartialEq)]
 enum Res {
@@ -45,6 +46,7 @@ impl Op {
             Op::UpdateNode(x) => format!("UpdateNode {x}"),
             Op::UpdateEdge(e) => format!("UpdateEdge {e}"),
             Op::Rejected => "Rejected".into(),
+            Op::Reopen => "Reopen".into(),
             Op::Batch(v) => format!("BatchCreateEdges {}", list(v.iter().map(|(f, t, d)| format!("({f}, {t}, {})", b(*d))))),
         }
     }
@@ -83,7 +85,7 @@ fn ident(r: Result<u64, GraphError>) -> Res {
 fn apply(e: &GraphEngine, o: &Op, salt: u64) -> Res {
     match o {
         Op::CreateNode => ident(e.create_node("N", HashMap::new())),
-        Op::CreateEdge(f, t, d) | Op::CreateEdgeId(_, f, t, d) => ident(e.create_edge(*f, *t, "T", HashMap::new(), *d)),
+        Op::CreateEdge(f, t, d) | Op::CreateEdgeId(_, f, t, d) => ident(e.create_edge(*f, *t, if salt % 3 == 0 { "U" } else { "T" }, HashMap::new(), *d)),
         Op::DeleteEdge(x) => unit(e.delete_edge(*x)),
         Op::DeleteNode(x) => unit(e.delete_node(*x)),
         Op::UpdateNode(x) => {
@@ -97,6 +99,7 @@ fn apply(e: &GraphEngine, o: &Op, salt: u64) -> Res {
             unit(e.update_edge(*x, p))
         }
         Op::Rejected => Res::Rejected,
+        Op::Reopen => Res::Ok, // handled by the caller (needs to replace the engine)
         Op::Batch(v) => {
             let inputs: Vec<EdgeInput> = v.iter().map(|(f, t, d)| EdgeInput::new(*f, *t, "T", HashMap::new(), *d)).collect();
             match e.batch_create_edges(inputs) {
@@ -144,6 +147,25 @@ fn observe(e: &GraphEngine) -> String {
             (Err(_), None) => {}
             _ => ok = false,
         }
+    }
+    // typed degrees: out/in_degree_by_type equal what the edge set implies, degree_by_type = out + in,
+    // and the typed degrees add up to out_degree / in_degree / degree
+    let mut types: Vec<String> = edges.iter().map(|x| x.edge_type.clone()).collect();
+    types.sort();
+    types.dedup();
+    types.push("NO_SUCH_TYPE".to_string());
+    for &x in &nodes {
+        let (mut so, mut si, mut sd) = (0usize, 0usize, 0usize);
+        for t in &types {
+            let eo = edges.iter().filter(|g| &g.edge_type == t && (g.from == x || (!g.directed && g.to == x))).count();
+            let ei = edges.iter().filter(|g| &g.edge_type == t && (g.to == x || (!g.directed && g.from == x))).count();
+            let (o, i, d) = (e.out_degree_by_type(x, t).unwrap_or(usize::MAX), e.in_degree_by_type(x, t).unwrap_or(usize::MAX), e.degree_by_type(x, t).unwrap_or(usize::MAX));
+            ok &= o == eo && i == ei && d == eo + ei;
+            so += o;
+            si += i;
+            sd += d;
+        }
+        ok &= Some(so) == e.out_degree(x).ok() && Some(si) == e.in_degree(x).ok() && Some(sd) == e.degree(x).ok();
     }
     format!(
         "(OB {} {} {} {})",
@@ -405,11 +427,15 @@ fn gen_seq(r: &mut Rng, dist: &mut Dist) -> Vec<Op> {
 }
 
 fn seq_case(ops: &[Op], tag: &str, w: &mut CaseWriter, dist: &mut Dist) {
-    let e = GraphEngine::new();
+    let mut e = GraphEngine::new();
     let mut items = vec![];
     let mut deleted_node_with_edges = false;
     for (i, o) in ops.iter().enumerate() {
         let before = if let Op::DeleteNode(x) = o { e.degree(*x).unwrap_or(0) } else { 0 };
+        if matches!(o, Op::Reopen) {
+            // a new engine over the same store (the path open_durable / recover take)
+            e = GraphEngine::with_store(e.store().clone());
+        }
         let res = guarded(std::panic::AssertUnwindSafe(|| apply(&e, o, i as u64))).unwrap_or(Res::Err);
         if matches!(o, Op::DeleteNode(_)) && res == Res::Ok && before > 0 {
             deleted_node_with_edges = true;
@@ -690,6 +716,35 @@ fn main() {
     for i in 0..nseq {
         let ops = gen_seq(&mut rng, &mut dist);
         seq_case(&ops, &format!("seq#{i}"), &mut seq, &mut dist);
+    }
+
+    // reopen: >= 10 (sometimes >= 100) edges and nodes, a few deletions, GraphEngine::with_store on the same
+    // store, then further creations (ids must not collide with live ones)
+    for i in 0..args.budget(8, 200) {
+        let big = i % 4 == 3;
+        let nn = if big { rng.range(3, 5) } else { rng.range(10, 13) };
+        let m = if big { rng.range(100, 112) } else { rng.range(10, 16) };
+        let mut ops: Vec<Op> = (0..nn).map(|_| Op::CreateNode).collect();
+        for _ in 0..m {
+            ops.push(Op::CreateEdge(rng.range(1, nn), rng.range(1, nn), rng.chance(1, 2)));
+        }
+        for _ in 0..rng.below(3) {
+            ops.push(Op::DeleteEdge(rng.range(1, m)));
+        }
+        if rng.chance(1, 3) {
+            ops.push(Op::DeleteNode(rng.range(1, nn)));
+        }
+        ops.push(Op::Reopen);
+        for _ in 0..rng.range(3, 6) {
+            ops.push(if rng.chance(1, 3) { Op::CreateNode } else { Op::CreateEdge(rng.range(1, nn), rng.range(1, nn), rng.chance(1, 2)) });
+        }
+        if rng.chance(1, 2) {
+            ops.push(Op::Reopen);
+            ops.push(Op::CreateEdge(rng.range(1, nn), rng.range(1, nn), true));
+            ops.push(Op::CreateNode);
+        }
+        seq_case(&ops, &format!("reopen#{i}"), &mut seq, &mut dist);
+        dist.hit(if big { "seq.reopen_after_100_edges" } else { "seq.reopen_after_10_edges_and_nodes" });
     }
 
     // constrained sequences (refused calls) go into the same `seq` stream
